@@ -111,6 +111,91 @@ def is_element(e):
     return False
 
 
+RECORD_TY = re.compile(r"BTreeMap<usize, \(")
+LOOKUPS = re.compile(r"(BTreeMap|HashMap)(<.*>)?::get$|<impl \[T\]>::get$|ops::Index(<.*>)?.*::index$|(BTreeMap|HashMap)(<.*>)?::(entry|get_mut|get_key_value)$|<impl \[T\]>::(first|last)$|Vec(<.*>)?::(first|last)$")
+
+
+def lookups_outside_this_record(an, b, e, depth=0):
+    """Lookups in operand e whose collection is not built from the current record alone: a field position or value
+    taken from another record of the flowset (`fields.first()`), or from a table that outlives the record (a layout
+    cached per template / flowset id), is not `this record's field`.  -> [description]"""
+    bad = []
+
+    def leaves(x, out, d=0):
+        x = peel(x, identity=(), casts=False) if x[0] not in ("closure",) else x
+        if d > 40:
+            out.append("deep")
+            return
+        k = x[0]
+        if k in ("const", "constfn", "sym", "uconst"):
+            return
+        if k == "some" and peel(x[1])[0] == "call" and peel(x[1])[2] is not None and peel(x[1])[2].nsyn == "std::iter::Iterator::next":
+            return                      # the element of an in-order iteration
+        if k == "cycle":
+            return
+        if k == "arg":
+            if not (b.kind == "Closure" and 1 < x[1] <= b.arg_count and RECORD_TY.search(b.local_ty(x[1]))) and not (b.kind != "Closure" and RECORD_TY.search(b.local_ty(x[1])) and "Vec<" not in b.local_ty(x[1]).split("BTreeMap")[0]):
+                out.append("arg%d: %s" % (x[1], b.local_ty(x[1])[:60]))
+            return
+        if k == "call":
+            if x[2] is not None and LOOKUPS.search(x[2].npath) and re.search(r"::(first|last|entry)$", x[2].npath):
+                out.append(x[2].npath.rsplit("::", 1)[1] + "()")
+            for a in x[3]:
+                leaves(a, out, d + 1)
+            return
+        if k == "closure":
+            for c in x[2]:
+                leaves(c, out, d + 1)
+            return
+        if k == "phi":
+            for m in x[1]:
+                leaves(m, out, d + 1)
+            return
+        if k in ("tuple", "array"):
+            for m in x[1]:
+                leaves(m, out, d + 1)
+            return
+        if k == "agg":
+            for m in x[3]:
+                leaves(m, out, d + 1)
+            return
+        if k == "mutlocal":
+            leaves(x[2], out, d + 1)
+            return
+        if k in ("ref", "deref", "ok", "err", "some", "discr", "downcast", "field", "tfield", "cast", "unop"):
+            leaves(x[1] if k not in ("cast", "unop") else x[2], out, d + 1)
+            return
+        if k == "binop":
+            leaves(x[2], out, d + 1)
+            leaves(x[3], out, d + 1)
+            return
+        out.append("?%s" % k)
+
+    for n in find(e, lambda n: n[0] == "call" and n[2] is not None and LOOKUPS.search(n[2].npath) and n[3]):
+        out = []
+        leaves(n[3][0], out)
+        if out:
+            bad.append("%s on a collection that also depends on %s" % (n[2].npath.rsplit("::", 1)[1], sorted(set(out))[:3]))
+    if depth < 4:
+        called = set()
+        # closures called directly (`let get = |k| helper(layout, record, k); get(K)`): apply them to their arguments
+        for n in find(e, lambda n: n[0] == "call" and n[2] is not None and len(n[3]) == 2 and
+                      (n[2].nsyn in ("std::ops::Fn::call", "std::ops::FnMut::call_mut", "std::ops::FnOnce::call_once") or "{closure#" in n[2].npath)):
+            clo = peel(n[3][0], identity=(), casts=False)
+            while clo[0] in ("ref", "deref"):
+                clo = peel(clo[1], identity=(), casts=False)
+            tup = peel(n[3][1])
+            if clo[0] == "closure" and tup[0] == "tuple":
+                called.add(canon(clo))
+                bad += lookups_outside_this_record(an, b, an.expand(an.interp.apply(clo, list(tup[1]))), depth + 1)
+        for c in find(e, lambda n: n[0] == "closure"):
+            if canon(c) in called:
+                continue
+            sub = an.expand(an.interp.apply(c, [("sym", "x")]))
+            bad += lookups_outside_this_record(an, b, sub, depth + 1)
+    return bad
+
+
 def keys_in(an, prog, e, depth=0, tmap=None, enum=None):
     """Variant names used as keys of BTreeMap::get inside expression e (following closures); with `enum`, also the
     variants of that field-name enum handed as constants to whatever does the lookup (`find_field(rec, Enum::K)`,
@@ -549,6 +634,10 @@ def run(ctx, env):
             want = P["keys"][nm]
             # which of several keys is preferred when a record carries more than one is not part of the property
             ctx.ob("R13.2", P["fn"], "keys:%s" % nm, sorted(set(ks)) == sorted(set(want)), "%s looks up %s, expected %s" % (nm, ks, want), site=site(s["span"]))
+            if want:
+                foreign = lookups_outside_this_record(an, b, e)
+                ctx.ob("R13.2", P["fn"], "from-this-record:%s" % nm, not foreign,
+                       ("%s is looked up through %s" % (nm, "; ".join(sorted(set(foreign))[:2]))) if foreign else "%s is looked up in collections built from the current record only" % nm, site=site(s["span"]))
             T = target_of(an, prog, an.op(b, o)) or target_of(an, prog, e)
             for le in late:
                 T = T or target_of(an, prog, le[1]) or target_of(an, prog, le[0])
